@@ -10,6 +10,7 @@ import (
 	"encoding/binary"
 	"fmt"
 	"net"
+	"net/netip"
 	"strconv"
 	"strings"
 	"sync"
@@ -71,6 +72,16 @@ func addr6(src, dst string, sp, dp int) []byte {
 
 func hp(ip string, port int) string { return net.JoinHostPort(ip, strconv.Itoa(port)) }
 
+// sameAddrPort: the same address and port, whatever the spelling (an IPv4-mapped IPv6 address is that IPv4 address).
+func sameAddrPort(a, b string) bool {
+	if a == b {
+		return true
+	}
+	pa, ea := netip.ParseAddrPort(a)
+	pb, eb := netip.ParseAddrPort(b)
+	return ea == nil && eb == nil && pa.Port() == pb.Port() && pa.Addr().Unmap() == pb.Addr().Unmap()
+}
+
 func headerCases() []headerCase {
 	var cs []headerCase
 	ok := func(name string, raw []byte, src, dst string) {
@@ -95,6 +106,10 @@ func headerCases() []headerCase {
 		for _, p := range [][2]int{{1, 2}, {65535, 65534}, {0, 0}} {
 			ok(fmt.Sprintf("v1-tcp6-%s-%d", a[0], p[0]), []byte(fmt.Sprintf("PROXY TCP6 %s %s %d %d\r\n", a[0], a[1], p[0], p[1])), hp(a[0], p[0]), hp(a[1], p[1]))
 		}
+	}
+	// IPv4-mapped IPv6 addresses on a TCP6 line (what a dual-stack balancer sends for an IPv4 client): in any spelling
+	for _, a := range [][2]string{{"::ffff:192.0.2.10", "::ffff:192.0.2.20"}, {"::ffff:c000:20a", "2001:db8::2"}, {"0:0:0:0:0:ffff:c000:20a", "::ffff:192.0.2.20"}} {
+		ok("v1-tcp6-mapped-"+a[0], []byte(fmt.Sprintf("PROXY TCP6 %s %s 40000 443\r\n", a[0], a[1])), hp(a[0], 40000), hp(a[1], 443))
 	}
 	// every line length from the minimum of each family upwards, one byte at a time (ports grow digit by digit)
 	ladder := [][2]int{{1, 2}, {1, 22}, {11, 22}, {11, 222}, {111, 222}, {111, 2222}, {1111, 2222}, {1111, 22222}, {11111, 22222}}
@@ -312,7 +327,7 @@ func parserScenario(x *explore.X, maxCuts int, stallMode bool) {
 			if isNil(ra) || isNil(la) {
 				return
 			}
-			if ra.String() != src || la.String() != dst {
+			if !sameAddrPort(ra.String(), src) || !sameAddrPort(la.String(), dst) {
 				x.Failf("wrong-address", "%s: RemoteAddr=%s LocalAddr=%s, want %s / %s", what, ra, la, src, dst)
 			}
 			if !bytes.Equal(data, payload) {
@@ -392,7 +407,9 @@ func multiConnScenario(x *explore.X) {
 		raw      []byte
 		src, dst string
 	}
-	a6 := func(i int) []byte { return addr6(fmt.Sprintf("2001:db8::a:%d", i), fmt.Sprintf("2001:db8::b:%d", i), 1000+i, 2000+i) }
+	a6 := func(i int) []byte {
+		return addr6(fmt.Sprintf("2001:db8::a:%d", i), fmt.Sprintf("2001:db8::b:%d", i), 1000+i, 2000+i)
+	}
 	alphabet := func(i int) []hc {
 		return []hc{
 			{v2(0x21, 0x21, 36, a6(i)), fmt.Sprintf("[2001:db8::a:%d]:%d", i, 1000+i), fmt.Sprintf("[2001:db8::b:%d]:%d", i, 2000+i)},
@@ -407,12 +424,12 @@ func multiConnScenario(x *explore.X) {
 	base, _ := n.Listen("pp.test:3128")
 	pl := &proxyproto.Listener{Listener: base, ReadHeaderTimeout: headerTO}
 	type live struct {
-		conn       net.Conn
-		peer       *simnet.Conn
-		want       hc
-		payload    []byte
-		firstR     string
-		firstL     string
+		conn    net.Conn
+		peer    *simnet.Conn
+		want    hc
+		payload []byte
+		firstR  string
+		firstL  string
 	}
 	var conns []*live
 	for i := 0; i < nconn; i++ {
@@ -493,7 +510,7 @@ func proxyScenario(x *explore.X) {
 		}
 		if hc.exp.v == invalid {
 			x.Failf("malformed-header-accepted/"+strings.ReplaceAll(hc.exp.why, " ", "-"), "%s (%s): the request was served", what, hc.exp.why)
-		} else if hc.name != "v1-family-mismatch" && xff != want {
+		} else if hc.name != "v1-family-mismatch" && xff != want && !sameAddrPort(net.JoinHostPort(xff, "1"), net.JoinHostPort(want, "1")) {
 			x.Failf("wrong-address", "%s: origin sees X-Forwarded-For %q, want %q", what, xff, want)
 		}
 		org.Conns[conns[0]].Send([]byte("HTTP/1.1 200 OK\r\nContent-Length: 2\r\n\r\nok"))
